@@ -162,9 +162,8 @@ def run(chk, scratch):
         rdir = os.path.join(scratch, "round%d" % ri)
         home = os.path.join(rdir, "home")
         os.makedirs(home)
-        if rd.get("shared_db"):
-            # every run of the round names the same folder for converted annotation databases (all annotations are called a.gtf)
-            os.makedirs(os.path.join(rdir, "shared_db"))
+        # rounds with "shared_db": every run names the same, not yet existing, folder for converted annotation databases (all annotations
+        # are called a.gtf); the monitor delays its creation as it delays the creation of the per-user folder
         if not rd["fresh_home"]:
             # pre-populate the cache with a finished run of input 15
             r0 = pipeline.run(os.path.join(pool, "in15"), os.path.join(rdir, "pre"), threads=1, home=home)
@@ -178,7 +177,8 @@ def run(chk, scratch):
             # a tiny shim delays the start until the common release time
             extra = ["--genedb_output", os.path.join(rdir, "shared_db")] if rd.get("shared_db") else []
             r = runner.run_isoquant(pipeline.std_args(d, out, threads=1, extra=extra), home, mon=["cache"],
-                                    cfg={"cache_seed": chk.seed * 100 + ri, "cache_max_delay": rd["delay"]}, events=ev,
+                                    cfg={"cache_seed": chk.seed * 100 + ri, "cache_max_delay": rd["delay"],
+                                         "mkdir_delay_paths": [os.path.join(rdir, "shared_db")]}, events=ev,
                                     env_extra={"VERIF_RUN_ID": str(j), "VERIF_START_AT": str(start_at)}, cwd=rdir)
             return j, k, out, r
         results = runner.parallel(one, list(range(rd["n"])), workers=rd["n"])
